@@ -212,7 +212,13 @@ class Program:
             try:
                 from .inline import inline_new_helpers, known_names
                 from .canon import unrename, canonicalise, unrename_locals
+                from .canon import methodise
+                self.normalisation["methodised"] = methodise(self)
                 self.normalisation["unrenamed"] = unrename(self, known_names())
+                from .canon import partial_to_lambda
+                self.normalisation["partials_to_lambdas"] = partial_to_lambda(self, known_names())
+                from .canon import closures_from_method_refs
+                self.normalisation["closures_restored"] = closures_from_method_refs(self, known_names())
                 self.normalisation["locals_unrenamed"] = unrename_locals(self)
                 self.normalisation["canonicalised"] = canonicalise(self)
                 self.inlining = inline_new_helpers(self)
